@@ -235,9 +235,9 @@ def attach_scc_subdiagram(
         else:
             # This node can be marked as expanded, because we know its successors.
             # We just need to add them in the for loop below.
-            if not sd.node_data(main_node_id)["expanded"]:
-                # Attractor data computed while the node had no successors is no longer valid.
-                sd._clear_node_attractor_data(main_node_id)  # type: ignore
+            # The node receives new successors below. Attractor data computed for
+            # its previous successors (or while it had none) is no longer valid.
+            sd._clear_node_attractor_data(main_node_id)  # type: ignore
             sd.node_data(main_node_id)["expanded"] = True
 
         if check_maa:
@@ -262,9 +262,9 @@ def attach_scc_subdiagram(
             sd._ensure_edge(main_node_id, main_succ_id, inner_stable_motif)  # type: ignore
 
     # This makes the `attach_at` node expanded. We will not be adding new nodes to it later.
-    if not sd.node_data(attach_at)["expanded"]:
-        # Attractor data computed while the node had no successors is no longer valid.
-        sd._clear_node_attractor_data(attach_at)  # type: ignore
+    # The node received new successors above. Attractor data computed for its
+    # previous successors (or while it had none) is no longer valid.
+    sd._clear_node_attractor_data(attach_at)  # type: ignore
     sd.node_data(attach_at)["expanded"] = True
     # Finally, if we are checking for MAAs, we can do that for the root too:
     if check_maa:
